@@ -300,3 +300,37 @@ func zzPutGovAdmins(w *zzWorld, n int) {
 	}
 	w.putObj(zzRoleAddr, RoleTypeKey(string(GovernanceAdmin)), ids)
 }
+
+// ZZH_C17_former_admin: operations reserved to governance admins (a vote on an open proposal,
+// freezing an appchain, freezing / activating a service) are attempted by an account whose
+// governance-admin record exists but is not available (frozen, logged out, or a rejected
+// candidate), through the real contracts and the real RoleManager. Each attempt is refused
+// without effect; the same call by an admin in office is accepted (vacuity guard).
+func ZZH_C17_former_admin() {
+	w, cs := zzFullWorld()
+	w.audit = zz.Choice("audit", 2) == 1
+	zzPutGovAdmins(w, 4)
+	st := []governance.GovernanceStatus{governance.GovernanceAvailable, governance.GovernanceFrozen, governance.GovernanceForbidden, governance.GovernanceUnavailable}[zz.Choice("adminStatus", 4)]
+	who := zzAdminIDs[3]
+	w.putObj(zzRoleAddr, RoleKey(who), Role{ID: who, RoleType: GovernanceAdmin, Weight: 1, Status: st})
+	w.putObj(zzAppchainAddr, appchainMgr.AppchainKey("chA"), appchainMgr.Appchain{ID: "chA", ChainName: "chA", ChainType: "fabric", Status: governance.GovernanceAvailable})
+	w.putObj(zzServiceAddr, service_mgr.ServiceKey("chA:s5"), service_mgr.Service{ChainID: "chA", ServiceID: "s5", Name: "s5", Type: service_mgr.ServiceCallContract,
+		Ordered: true, Permission: map[string]struct{}{}, Status: governance.GovernanceAvailable})
+	w.caller = who
+	snap := w.snapshot()
+	before := w.effects
+	var err error
+	switch zz.Choice("operation", 3) {
+	case 0:
+		_, err = zzInvoke(w, cs[zzGovAddr], zzGovAddr, who, "Vote", []*pb.Arg{pb.String("0xSponsor-1"), pb.String(BallotApprove), pb.String("r")})
+	case 1:
+		_, err = zzInvoke(w, cs[zzAppchainAddr], zzAppchainAddr, who, "FreezeAppchain", []*pb.Arg{pb.String("chA"), pb.String("r")})
+	default:
+		_, err = zzInvoke(w, cs[zzServiceAddr], zzServiceAddr, who, "FreezeService", []*pb.Arg{pb.String("chA:s5"), pb.String("r")})
+	}
+	inOffice := st == governance.GovernanceAvailable
+	zz.Cover("C17.former.admin-in-office-accepted", inOffice && err == nil)
+	if !inOffice {
+		zz.Assert("C17.former.refused-without-effect", err != nil && w.effects == before && w.unchanged(snap))
+	}
+}
